@@ -41,6 +41,38 @@ def _set_schema_emit(schema, emit):
 DEFAULT_SCHEMA = '_default'
 
 
+def _count_merged_updates(update):
+    '''How many updates were merged into the dictionary ``update`` key
+    by key (0: it is one update).'''
+    count = 0
+    for value in update.values():
+        if isinstance(value, dict):
+            if MULTI_UPDATE_KEY in value:
+                count = max(count, len(value[MULTI_UPDATE_KEY]))
+            else:
+                count = max(count, _count_merged_updates(value))
+    return count
+
+
+def _nth_merged_update(update, index):
+    '''The ``index``-th of the updates merged into ``update``: what
+    was collected under ``_multi_update`` by position, everything else
+    with the first. Returns ``(present, value)``.'''
+    if not isinstance(update, dict):
+        return index == 0, update
+    if MULTI_UPDATE_KEY in update:
+        collected = update[MULTI_UPDATE_KEY]
+        if index < len(collected):
+            return True, collected[index]
+        return False, None
+    part = {}
+    for key, value in update.items():
+        present, nth = _nth_merged_update(value, index)
+        if present:
+            part[key] = nth
+    return bool(part) or index == 0, part
+
+
 def generate_state(
         processes: Processes,
         topology: Topology,
@@ -1758,6 +1790,17 @@ class Store:
                 flow_updates, deletions, view_expire)
 
         # Leaf update: this node has no inner
+
+        if isinstance(update, dict) and '_updater' not in update:
+            merged = _count_merged_updates(update)
+            if merged:
+                # Several dictionary updates for this variable (sent
+                # through several ports) were merged key by key on the
+                # way, as if the variable were a branch: take them apart
+                # again and apply them one after the other.
+                for index in range(merged):
+                    self.apply_update(_nth_merged_update(update, index)[1], state)
+                return _EMPTY_UPDATES
 
         updater = self._get_updater(update)
 
